@@ -866,7 +866,7 @@ def scope_templates():
     # a literal AND a dynamically sized array live in the body when the exit is taken
     for ex in ('break', 'continue', 'return 7'):
         T('mixed-static-dynamic-' + ex.split()[0], "sleep(f(x)); sleep(f(y)); sleep(f(x + 1));",
-          extra="int f(int v) { int n = 0; for (int i = 0; i < 3; i += 1) { int[] lit = [i, v]; int scratch[i + 1]; scratch[i] = lit[1]; n += scratch[i]; if (i == v %% 3) { %s; } byte[] more = ['m', 'n', 'o']; n += more[1]; } return n; }\n" % ex)
+          extra="int f(int v) { int n = 0; for (int i = 0; i < 3; i += 1) { int[] lit = [i, v]; int scratch[i + 1]; scratch[i] = lit[1]; n += scratch[i]; if (i == v) { %s; } byte[] more = ['m', 'n', 'o']; n += more[1]; } return n; }\n" % ex)
     T('mixed-dynamic-static-block', "sleep(f(x)); sleep(f(y));", extra="int f(int v) { int n = v % 3 + 1; { int a[n]; int[] b = [v, 2]; bool c[n + 8]; a[n - 1] = b[0]; c[n] = true; if (v > 4) { return a[n - 1]; } } { string[] s = [\"a\"]; int d[n]; d[0] = 5; return d[0] + n; } }\n")
     # the body of a loop ends in a try whose body always leaves and whose defeat call sits in an expression
     for h in ('undo', 'stop'):
